@@ -33,10 +33,18 @@ WALL_CAP = {"quick": 900, "thorough": 7200}
 def BOUNDS(tier):
     if tier == "quick":
         return {"rich": {"depth": 1, "alphabet": "full"}, "mini": {"depth": 2, "alphabet": "thin"},
-                "empty": {"depth": 3, "alphabet": "full"}, "handles": ["ABAB"]}
+                "empty": {"depth": 3, "alphabet": "full"}, "handles": ["ABAB"],
+                "two-handle histories": "mini, depth exactly 3, link/unlink/metadata/definition on one entity (group, tag), patterns ABA and AAB"}
     return {"rich": {"depth": 1, "alphabet": "full"}, "mini": {"depth": 2, "alphabet": "full"},
             "mini-thin": {"depth": 3, "alphabet": "thin, last step full"},
             "empty": {"depth": 4, "alphabet": "full"}, "handles": ["ABAB", "fresh"]}
+
+
+def handle_cfg(ent):
+    """link / unlink / one attribute on a single entity: the alphabet for the two-handle histories"""
+    return {"thin": True, "names": ["sig"], "nsecs": 1, "narr": 2, "nsrc": 2,
+            "only": {"link", "unlink", "set", "set_meta"},
+            "pred": lambda op: op[1] == ent and (op[0] != "set" or (op[2] == "definition" and op[3] is not None))}
 
 
 def cases(tier):
@@ -52,10 +60,14 @@ def cases(tier):
         add("rich", explorer.enumerate_histories("rich", 1, {"delete_modes": True}), ["AB"])
         add("mini", explorer.enumerate_histories("mini", 2, THIN, follow=explorer.same_entity_or_reopen), ["AB"])
         add("empty", explorer.enumerate_histories("empty", 3, {}), ["AB"])
+        for ent in (["blocks", "blk", "groups", "grp"], ["blocks", "blk", "tags", "tag"]):
+            add("mini", [h for h in explorer.enumerate_histories("mini", 3, handle_cfg(ent)) if len(h) == 3], ["AB", "AAB"])
     else:
         add("rich", explorer.enumerate_histories("rich", 1, {"delete_modes": True}), ["AB", "fresh"])
         add("mini", explorer.enumerate_histories("mini", 2, {"delete_modes": True}), ["AB", "fresh"])
         add("empty", explorer.enumerate_histories("empty", 4, {}), ["AB"])
+        for ent in (["blocks", "blk", "groups", "grp"], ["blocks", "blk", "tags", "tag"], ["blocks", "blk", "data_arrays", "sig"]):
+            add("mini", [h for h in explorer.enumerate_histories("mini", 3, handle_cfg(ent)) if len(h) == 3], ["AB", "AAB", "ABB"])
     return out
 
 
